@@ -124,4 +124,37 @@ def reconstruct (verify : Verify) (chain : List UInt8) (h : Nat) (vals : List Va
         | none => none
         | some s => if hasTwoThirdsMajority s then some (some s) else none
 
+/-! ## Fast sync (`blockchain/reactor.go` poolRoutine + `blockchain/pool.go`), one serving peer
+
+The node asks the peer for the heights up to the height the peer announced, and applies height `h` when it holds block `h`
+and block `h+1` and `status.Validators.VerifyCommit(chainID, id of block h AS RECEIVED, h, block(h+1).LastCommit)` succeeds;
+on an error it redoes both requests, which removes the (only) peer.  The last requested block can never be applied (its
+commit travels in the next block).  `avail` = the block was served, decodable and within the announced range. -/
+
+structure FsH where
+  vals : List Val
+  bid : BlockID
+  avail : Bool
+  /-- the commit for this height as carried by the NEXT served block (`none`: that block has a nil LastCommit) -/
+  commit : Option Commit
+deriving Repr, Inhabited
+
+inductive FsStop where
+  | caughtUp | missing | badCommit | halt
+deriving Repr, DecidableEq, Inhabited
+
+/-- `(applied, why it stopped)`; `h` = the height of the head of the list; `complete` = the list ends at the height the peer
+announced (otherwise the peer announced more than it serves) -/
+def fsLoop (verify : Verify) (chain : List UInt8) (complete : Bool) : Nat → List FsH → Nat × FsStop
+  | h, x :: y :: rest =>
+    if !x.avail || !y.avail then (h - 1, .missing)
+    else match x.commit with
+      | none => (h - 1, .badCommit)        -- a served block without LastCommit is an invalid commit (fix 7fe70ad; it was a nil dereference in poolRoutine, which has no recover)
+      | some c =>
+        match verifyCommit verify x.vals chain x.bid h c with
+        | .ok _ => fsLoop verify chain complete (h + 1) (y :: rest)
+        | .error _ => (h - 1, .badCommit)
+  | h, [_] => (h - 1, if complete then .caughtUp else .missing)
+  | h, [] => (h - 1, .caughtUp)
+
 end Model.Commit
